@@ -83,8 +83,16 @@ func init() {
 			return ex.input(ex.freshName("rand.Uint32"), 32), nil
 		},
 		"time.Now": func(ex *Exec, fn *ssa.Function, a []Value) (Value, *Panic) {
-			ex.stubsUsed["time.Now = zero Time"] = true
-			return ex.zero(fn.Signature.Results().At(0).Type(), nil), nil
+			// a fixed instant that is not the zero Time (so IsZero is false, as for any real clock
+			// reading); deadlines derived from it are only ever compared with the zero Time
+			ex.stubsUsed["time.Now = one fixed non-zero instant"] = true
+			v := ex.zero(fn.Signature.Results().At(0).Type(), nil)
+			if sv, ok := v.(*StructV); ok && len(sv.f) == 3 {
+				if t, ok := sv.f[1].(*Term); ok {
+					sv.f[1] = ex.ts.Const(t.w, 1<<40)
+				}
+			}
+			return v, nil
 		},
 		"(time.Time).Add": func(ex *Exec, fn *ssa.Function, a []Value) (Value, *Panic) {
 			return a[0], nil
@@ -112,6 +120,8 @@ func init() {
 			p.base.set(p.idx, a[1]) // sanctioned writer
 			return nil, nil
 		},
+		"(*sync.Pool).Get":      stubPoolGet,
+		"(*sync.Pool).Put":      stubPoolPut,
 		"bytes.Repeat":          stubBytesRepeat,
 		"bytes.Equal":           stubBytesEqual,
 		"net.IPv4":              stubNetIPv4,
@@ -968,4 +978,73 @@ func (ex *Exec) deepEq(t types.Type, a, b Value, depth int, seen map[[2]Containe
 		return ts.Bool(b == nil)
 	}
 	panic(ex.unsupported(fmt.Sprintf("DeepEq on %T", a)))
+}
+
+// ---- sync.Pool: contract model ----
+// Put(x) adds x to the pool; Get removes and returns ANY item previously put (the choice is a
+// fork, most recently put first — which is what the runtime does on one goroutine without a
+// collection in between), or, as the last alternative, the result of New (nil without New).
+// The runtime may also drop items at any time; dropping is covered by the New alternative.
+
+type poolKey struct {
+	c   Container
+	idx int
+}
+
+func poolOf(ex *Exec, v Value, what string) (poolKey, *StructV, *Panic) {
+	p, ok := v.(*Ptr)
+	if !ok || p.IsNil() {
+		return poolKey{}, nil, ex.runtimePanic("nil", "invalid memory address or nil pointer dereference (nil *sync.Pool in "+what+")")
+	}
+	sv, ok := p.base.get(p.idx).(*StructV)
+	if !ok {
+		panic(ex.unsupported("sync.Pool with unexpected layout"))
+	}
+	return poolKey{p.base, p.idx}, sv, nil
+}
+
+func stubPoolPut(ex *Exec, fn *ssa.Function, a []Value) (Value, *Panic) {
+	k, _, pan := poolOf(ex, a[0], "Put")
+	if pan != nil {
+		return nil, pan
+	}
+	ex.stubsUsed["sync.Pool = Get returns any item previously Put, or New()"] = true
+	if iv, ok := a[1].(*IfaceV); ok && iv.t == nil {
+		return nil, nil // Put(nil) is a no-op
+	}
+	if ex.pools == nil {
+		ex.pools = map[poolKey][]Value{}
+	}
+	ex.pools[k] = append(ex.pools[k], a[1])
+	return nil, nil
+}
+
+func stubPoolGet(ex *Exec, fn *ssa.Function, a []Value) (Value, *Panic) {
+	k, sv, pan := poolOf(ex, a[0], "Get")
+	if pan != nil {
+		return nil, pan
+	}
+	ex.stubsUsed["sync.Pool = Get returns any item previously Put, or New()"] = true
+	items := ex.pools[k]
+	c := 0
+	if len(items) > 0 {
+		c = ex.choose(len(items)+1, ex.freshName("sync.Pool.Get"))
+	}
+	if c < len(items) {
+		i := len(items) - 1 - c
+		v := items[i]
+		rest := append([]Value{}, items[:i]...)
+		ex.pools[k] = append(rest, items[i+1:]...)
+		return v, nil
+	}
+	// New is the last field of sync.Pool
+	st := fn.Signature.Recv().Type().(*types.Pointer).Elem().Underlying().(*types.Struct)
+	for i := 0; i < st.NumFields(); i++ {
+		if st.Field(i).Name() == "New" {
+			if f, ok := sv.f[i].(*FuncV); ok && f != nil && f.fn != nil {
+				return ex.callFuncV(f, nil, nil)
+			}
+		}
+	}
+	return nilIface, nil
 }
